@@ -19,10 +19,13 @@ func init() {
 				"(2) return discipline: Diff returns \"\" only when the computed diff is empty and otherwise a string with a non-empty constant prefix; DiffMatch returns \"\" only under the result of a full-match (^...$) regular expression on the first text, and otherwise never \"\"; " +
 				"(3) the context width handed to the hunk grouping is the constant 3 from both entry points; " +
 				"(4) the hunk grouping ends a group exactly where an unchanged run is longer than twice the context parameter (linear form of the threshold = 2n). " +
-				"NOT decided (the core of the statement): that the edit script is correct (applying it to the first text yields the second), hunk-header arithmetic, the <= 3 context bound as a value, placeholder expansion - a round-trip property over all pairs of sequences, out of reach of a sound static argument here; an exhaustive small-scope enumeration would be exploration, a different technique.",
+				"(5) every trimming of an unchanged run against the context parameter n is min(x, y+n) / max(x, y-n) with coefficient 1 and no constant (at most n unchanged lines at either end of a hunk, and exactly n where there are that many); " +
+				"(6) the range formatter of the hunk header renders start+1 - start only, and always, under the empty-range test - and the length stop-start, nothing else; " +
+				"(7) the header's two ranges run from the start field of the group's first opcode to the stop field of its last, '-' range first, and these are the field pairs by which the body slices the first text (' ' and '-' lines) and the second text ('+' lines). " +
+				"NOT decided (the core of the statement): that the matching blocks - and hence the edit script - are correct (applying it to the first text yields the second), placeholder expansion in DiffMatch - a round-trip property over all pairs of sequences, out of reach of a sound static argument here; an exhaustive small-scope enumeration would be exploration, a different technique.",
 			Rule:        "one obligation per entry point and fact",
 			Assumptions: []string{"go/types + go/ssa", "regexp and strings behave as documented"},
-			MinObl:      7,
+			MinObl:      12,
 		},
 		Configs: tiered(linuxQuick, linuxQuick),
 		Run:     runC20,
